@@ -920,6 +920,7 @@ def c10(case, obs, crash, tables):
     f = []
     ops = [o for o in parse_ops(case) if o[0] == "B"]
     dtype_of = {v[0]: v[2] for v in tables.ipfix.values()} if tables else {}
+    prevS = {}
     for k, (o, op) in enumerate(zip(obs, ops)):
         R = get(o, "R")
         X = get(o, "X")
@@ -941,10 +942,17 @@ def c10(case, obs, crash, tables):
                     if stored < n:
                         classes.add("K_C10_sets_dropped")
                     tmpl = {}
-                    if S is not None:
-                        for m in ("ix_t", "ix_o"):
-                            for ent in get(S, m):
-                                tmpl[ent[0]] = ent[1]
+                    for Sx in (prevS.get(op[1]), S):
+                        if Sx is not None:
+                            for m in ("ix_t", "ix_o"):
+                                for ent in get(Sx, m):
+                                    tmpl.setdefault(ent[0], []).append(ent[1])
+                    for e2 in R:
+                        if elem_kind(e2) == "IPFix":
+                            for fs2 in get(elem_body(e2), "flowsets"):
+                                b2 = get(fs2, "body")
+                                if b2[0][0] in ("Template", "OptionsTemplate"):
+                                    tmpl.setdefault(get(b2[0][1], "template_id"), []).append(b2[0][1])
                     for fs in sets:
                         b = get(fs, "body")
                         if b[0][0] in ("Data", "OptionsData"):
@@ -953,9 +961,9 @@ def c10(case, obs, crash, tables):
                                 classes |= value_classes("K_C10", tv[1])
                                 if tv[1][0][0] == "DataNumber" and dtype_of.get(tv[0]) == "SignedDataNumber":
                                     classes.add("K_C10_signed_widened")
-                            t = tmpl.get(get(get(fs, "header"), "header_id"))
-                            if t is not None and any(get(q, "field_length") == 65535 for q in get(t, "fields")):
-                                classes.add("K_C10_varlen_prefix")
+                            for t in tmpl.get(get(get(fs, "header"), "header_id"), []):
+                                if any(get(q, "field_length") == 65535 for q in get(t, "fields")):
+                                    classes.add("K_C10_varlen_prefix")
                     what = "to_be_bytes failed" if X[j] == "ERR" else ("to_be_bytes PANICKED" if X[j] == "PANIC" else "to_be_bytes differs from the %d bytes the message occupied" % n)
                     if X[j] == "PANIC" or not classes:
                         f.append((None, "op %d: IPFIX element %d: %s (no lossy value kind, variable-length field or dropped set in the message)" % (k, j, what)))
@@ -963,6 +971,7 @@ def c10(case, obs, crash, tables):
                         for c in sorted(classes):
                             f.append((c, "IPFIX message with %s: %s" % (c.split("_", 2)[2], what)))
             pos += n
+        prevS[op[1]] = S
     return f
 
 
@@ -1176,6 +1185,8 @@ def c15(case, obs, crash):
                     cls = cls or "K_C15_v9_retry_or_zero_len"
                 if elem_kind(e) == "IPFix" and L > 50 * n:
                     cls = cls or "K_C15_zero_len_inflation"
+            if cls is None and M <= bound + 70000 * (1 + n // 8):
+                cls = "K_C15_count_prealloc"
             f.append((cls, "op %d: %d bytes allocated for a %d-byte buffer and a %d-byte serialized result (bound %d)" % (k, M, n, L, bound)))
     return f
 
@@ -1188,27 +1199,52 @@ def c17(case, obs, crash, tables):
     dobs = case.meta.get("default_obs")
     if dobs is None:
         return f
-    unknown_names = {"Unknown"}
+    unk = {"V9": {"Unknown"}, "IPFix": {"Unknown"}}
+    if tables:
+        unk["V9"] |= {v[0] for v in tables.v9.values() if v[2] == "Unknown"}
+        unk["IPFix"] |= {v[0] for v in tables.ipfix.values() if v[2] == "Unknown"}
+
+    def unknown_values(Rx):
+        for e in Rx:
+            if elem_kind(e) in ("V9", "IPFix"):
+                unknown_names = unk[elem_kind(e)]
+                for fs in get(elem_body(e), "flowsets"):
+                    b = get(fs, "body")
+                    if b[0][0] in ("Data", "OptionsData") and get(b[0][1], "fields") is not None:
+                        for rec in get(b[0][1], "fields"):
+                            for _key, tv in rec:
+                                if tv[0] in unknown_names:
+                                    return True
+        return False
+
+    def unknown_templates(Rx):
+        """a template that names a field the library does not know was received"""
+        for e in Rx:
+            if elem_kind(e) in ("V9", "IPFix"):
+                unknown_names = unk[elem_kind(e)]
+                for fs in get(elem_body(e), "flowsets"):
+                    b = get(fs, "body")
+                    if b[0][0] in ("Template", "OptionsTemplate"):
+                        ts = get(b[0][1], "templates")
+                        ts = ts if ts is not None else [b[0][1]]
+                        for t in ts:
+                            for key in ("fields", "option_fields"):
+                                for q in get(t, key) or []:
+                                    if get(q, "field_type") in unknown_names and get(q, "enterprise_number") is None:
+                                        return True
+        return False
+
+    diverged = False      # from the first template with an unknown field on, the two builds may differ
     for k, (o, d) in enumerate(zip(obs, dobs)):
         R = get(o, "R")
         RD = get(d, "R")
         if not isinstance(R, list) or not isinstance(RD, list):
             continue
-        # does the default-build result decode any value of an unknown field type?
-        def has_unknown(Rx):
-            for e in Rx:
-                if elem_kind(e) in ("V9", "IPFix"):
-                    for fs in get(elem_body(e), "flowsets"):
-                        b = get(fs, "body")
-                        if b[0][0] in ("Data", "OptionsData") and get(b[0][1], "fields") is not None:
-                            for rec in get(b[0][1], "fields"):
-                                for _key, tv in rec:
-                                    if tv[0] in unknown_names:
-                                        return True
-            return False
-        if has_unknown(R):
-            f.append((None, "op %d: a value of an unknown field type is reported as decoded data with parse_unknown_fields off" % k))
-        if not has_unknown(RD) and not case.meta.get("has_unknown_template"):
+        if unknown_values(R):
+            f.append((None, "op %d: a value of a field type the library does not know is reported as decoded data with parse_unknown_fields off" % k))
+        if unknown_templates(RD) or unknown_values(RD):
+            diverged = True
+        if not diverged:
             for key in ("R", "X", "C"):
                 dd = canon.diff(get(d, key), get(o, key), key)
                 if dd:
